@@ -17,6 +17,7 @@ type case = {
   claims : (int * int) list;
   mus : (int * (int * int * int)) list;
   racts : (int * ract list) list;
+  racts2 : (int * ract2 list) list;      (* expose handlers' calls including flush / set_geometry; [racts] = those without *)
   facts : (int * ract list) list;        (* calls of the focus handler, made when the window itself is told IN *)
   gacts : (int * ract list) list;        (* calls of the geomchange handler *)
   fcacts : (int * ract list) list;       (* calls of the focus handler, made when the window is told IN about a child *)
@@ -46,7 +47,8 @@ let parse_case (line : string) : case =
   match toks with
   | "W" :: tk :: nl :: nc :: pol :: rest ->
     let hdr = { tk = tk.[0]; nl = int_of_string nl; nc = int_of_string nc; pol } in
-    let progs = ref [] and claims = ref [] and mus = ref [] and racts = ref [] and facts = ref [] and gacts = ref [] and fcacts = ref [] and items = ref [] in
+    let extra : (int * ract2) list ref = ref [] in
+    let progs = ref [] and claims = ref [] and mus = ref [] and racts = ref [] and racts2 = ref [] and facts = ref [] and gacts = ref [] and fcacts = ref [] and items = ref [] in
     let b x = x <> 0 in
     let rec go toks =
       match toks with
@@ -59,6 +61,8 @@ let parse_case (line : string) : case =
         let id = int_of_string id in
         let old = try List.assoc id !progs with Not_found -> [] in
         progs := (id, old @ ds) :: List.remove_assoc id !progs; go r'
+      | "BR" :: _ :: _ :: r -> go r   (* savepen / save brackets around a handler's drawing: balanced, and the
+                                         handlers neither clip, translate nor mask, so they change nothing (C02_brackets_neutral) *)
       | (("RA" | "FA" | "GA" | "FC") as kind) :: id :: n :: r ->
         let racts = (match kind with "RA" -> racts | "FA" -> facts | "FC" -> fcacts | _ -> gacts) in
         let n = int_of_string n in
@@ -75,8 +79,25 @@ let parse_case (line : string) : case =
             | "lb" :: w :: r' -> acts (k - 1) r' (RRestack (HLowerBack, zi (int_of_string w)) :: acc)
             | "xc" :: w :: r' -> acts (k - 1) r' (RClose (zi (int_of_string w)) :: acc)
             | "xd" :: w :: r' -> acts (k - 1) r' (RDestroy (zi (int_of_string w)) :: acc)
+            | "fl" :: _ :: r' when kind = "RA" -> extra := (List.length acc, RFlush) :: !extra; acts (k - 1) r' acc
+            | "rg" :: w :: t :: l :: h :: c :: r' when kind = "RA" ->
+              extra := (List.length acc, RGeom (zi (int_of_string w), mkrect (int_of_string t) (int_of_string l) (int_of_string h) (int_of_string c), true)) :: !extra;
+              acts (k - 1) r' acc
             | _ -> failwith "ract" in
+        extra := [];
         let (a, r') = acts n r [] in
+        (* the full list, with the flush / set_geometry calls at their places *)
+        let a2 =
+          let ex = List.rev !extra in
+          let rec weave i l ex = match ex with
+            | (pos, x) :: ex' when pos = i -> x :: weave i l ex'
+            | _ -> (match l with [] -> [] | y :: l' -> RA y :: weave (i + 1) l' ex) in
+          weave 0 a ex in
+        if kind = "RA" then begin
+          let id' = int_of_string id in
+          let old2 = try List.assoc id' !racts2 with Not_found -> [] in
+          racts2 := (id', old2 @ a2) :: List.remove_assoc id' !racts2
+        end;
         let id = int_of_string id in
         let old = try List.assoc id !racts with Not_found -> [] in
         racts := (id, old @ a) :: List.remove_assoc id !racts; go r'
@@ -132,7 +153,7 @@ let parse_case (line : string) : case =
       | t :: _ -> failwith ("op " ^ t)
     in
     go rest;
-    { hdr; progs = !progs; claims = !claims; mus = !mus; racts = !racts; facts = !facts; gacts = !gacts; fcacts = !fcacts; items = List.rev !items }
+    { hdr; progs = !progs; claims = !claims; mus = !mus; racts = !racts; racts2 = !racts2; facts = !facts; gacts = !gacts; fcacts = !fcacts; items = List.rev !items }
   | _ -> failwith "header"
 
 (* for the k-th flush of a case: the restack requests made since the previous flush, in order; and whether
@@ -158,6 +179,17 @@ let oracle_of_policy (pol : string) =
   | 'S' -> pol_script (List.init (String.length pol - 1) (fun i -> pol.[i + 1] = '1'))
   | _ -> pol_mock
 
+let has_flush_or_geom (c : case) =
+  List.exists (fun (_, acts) -> List.exists (function RA _ -> false | _ -> true) acts) c.racts2
+(* calls that change the tree while the flush walks it *)
+let has_tree_change (c : case) =
+  List.exists (fun (_, acts) -> List.exists (function
+      | RA (RShow _ | RHide _ | RRestack _ | RClose _ | RDestroy _) | RGeom _ -> true
+      | _ -> false) acts) c.racts2
+let has_nested_flush (c : case) =
+  List.exists (fun (_, acts) -> List.exists (function RFlush -> true | _ -> false) acts) c.racts2
+let racts2_fn (c : case) : z -> ract2 list =
+  fun id -> try List.assoc (iz id) c.racts2 with Not_found -> []
 let racts_fn (c : case) : z -> ract list =
   fun id -> try List.assoc (iz id) c.racts with Not_found -> []
 
@@ -331,7 +363,8 @@ let model (line : string) : string =
       match it with
       | Op OFlush ->
         let before = !m in
-        m := step_re cfg progs (racts_fn c) OFlush !m;
+        m := (if has_flush_or_geom c then step2 cfg progs (racts2_fn c) OFlush !m
+              else step_re cfg progs (racts_fn c) OFlush !m);
         sep (); pr "F U="; pr_tree before.m_root.r_tree;
         pr " P=";
         (match before.m_root.r_damage with
@@ -380,6 +413,13 @@ let model (line : string) : string =
           Hashtbl.add used k ();
           m := step cfg progs (ONew (id, pid, r, a, b, c', d)) !m
         end
+      | Op (OShow id) ->
+        (match t_find id !m.m_root.r_tree with
+         | Some _ ->
+           sep (); pr "SH W=%d U=" (iz id); pr_tree !m.m_root.r_tree;
+           m := step cfg progs (OShow id) !m;
+           pr " T="; pr_tree !m.m_root.r_tree
+         | None -> m := step cfg progs (OShow id) !m)
       | Op o -> m := step cfg progs o !m
       | Key ->
         sep (); pr "K T="; pr_tree !m.m_root.r_tree;
